@@ -76,6 +76,11 @@ def run(C, R):
             paths = E.run(m['path'])
             R.add_paths(m['path'], len(paths))
             owns = own_node_roots(F, m)
+            # the cancel transition: reached from a destructor - after it returns the future is gone, whatever state
+            # its node was left in
+            from rl import lift_private_callers as _lift06
+            is_cancel = any(((F.fn(c_) or {}).get('impl_trait') or '').endswith('ops::Drop')
+                            for c_ in _lift06(F, CG, m['path']))
             for path in paths:
                 if path.exit != 'return':
                     continue
@@ -116,7 +121,8 @@ def run(C, R):
                                    where(F, relinked[-1][1]), {'trace': trace_summary(path)})
                         continue
                     # R2: notified node consumed
-                    if s0 == 'Notified' and final not in ('Notified', None) and final != 'Waiting':
+                    if s0 == 'Notified' and ((final not in ('Notified', None) and final != 'Waiting') or
+                                             (is_cancel and not subs)):
                         if subs and fair == 0:
                             continue  # unfair grant: everything that fits was already notified
                         counts['R2'] += 1
